@@ -309,7 +309,7 @@ def translate(check_pins=True):
     L = []
     L.append("(* generated by translate/tr_transfer.py from redun/backends/db/{__init__,serializers}.py, redun/cli.py — do not edit *)")
     L.append("From Coq Require Import List NArith Bool String.")
-    L.append("From RV Require Import Model.Transfer Proofs.TransferCache Props.C23.")
+    L.append("From RV Require Import Model.Transfer Proofs.TransferMain Proofs.TransferCache Props.C23.")
     L.append("Import ListNotations.\nOpen Scope string_scope.\nOpen Scope list_scope.\n")
     L.append(f"Definition gen_cfg : config := mkConfig {order} false {'true' if own else 'false'}.")
     L.append("Definition gen_carried : list (string * list string) :=\n  [ " + ";\n    ".join(
@@ -329,7 +329,7 @@ def translate(check_pins=True):
     if order == "ByCallOrder":
         L.append("Lemma C23_now_preserves : forall src dst roots d n l i e, compat gen_cfg src dst ->\n"
                  "  sync gen_cfg src dst roots = Synced d n -> iter_record_ids src roots = WalkIds l ->\n"
-                 "  In i l -> find src i = Some e -> exists e', find d i = Some e' /\\ Proofs.TransferMain.equiv gen_cfg i e e'.\n"
+                 "  In i l -> find src i = Some e -> exists e', find d i = Some e' /\\ equiv gen_cfg i e e'.\n"
                  "Proof. intros src dst roots d n l i e. apply (C23_transfer_preserves gen_cfg). reflexivity. Qed.")
         L.append("Lemma C23_now_children : children_in_call_order (synced gen_cfg w_src [] [1%N]) 10%N = Some [12; 11]%N.\n"
                  "Proof. vm_compute. reflexivity. Qed.")
